@@ -66,6 +66,7 @@ class ExplorerScriptSsbDecompiler:
     indent: int
     _line_number: int
     labels_already_printed: list[int] = []
+    labels_jumped_to: set[int] = set()
     smb: SourceMapBuilder | None
     performance_progress_list_var_name: str
     dungeon_mode_constants: DungeonModeConstants
@@ -95,6 +96,7 @@ class ExplorerScriptSsbDecompiler:
         self.indent = 0
         self._line_number = 1
         self.labels_already_printed = []
+        self.labels_jumped_to = set()
         self.smb = None
         self.performance_progress_list_var_name = performance_progress_list_var_name
         self.dungeon_mode_constants = dungeon_mode_constants
@@ -105,6 +107,7 @@ class ExplorerScriptSsbDecompiler:
         self._output = ""
         self.indent = 0
         self.labels_already_printed = []
+        self.labels_jumped_to = set()
         self._line_number = 1
         self.smb = SourceMapBuilder()
 
@@ -150,6 +153,11 @@ class ExplorerScriptSsbDecompiler:
                     self.named_coroutines[r_id] if r_id in self.named_coroutines else None,
                 )
                 RoutineWriteHandler(self, r_id, r_info, r_graph).write_content()
+
+            # A jump or call to a label that was never written is not ExplorerScript the compiler accepts.
+            missing_labels = self.labels_jumped_to.difference(self.labels_already_printed)
+            if len(missing_labels) > 0:
+                raise ValueError(f"Labels {sorted(missing_labels)} are jumped to, but were not written.")
 
             return self._output, self.smb.build()
 
@@ -204,9 +212,11 @@ class ExplorerScriptSsbDecompiler:
         # Depending on what the previous operation was, this has to be printed differently
         if not isinstance(previous_op, SsbLabelJump):
             # We need a jump now. We didn't have one but now we will.
+            self.labels_jumped_to.add(label_id)
             self.write_stmnt(f"jump @label_{label_id};")
         elif previous_op.get_marker() is None:
             # Normal jump, just print that
+            self.labels_jumped_to.add(label_id)
             self.write_stmnt(f"jump @label_{label_id};")
         elif isinstance(previous_op.get_marker(), ForeverContinue) or isinstance(
             previous_op.get_marker(), ForeverBreak
@@ -216,6 +226,7 @@ class ExplorerScriptSsbDecompiler:
             pass
         else:
             # Jump as part of a control structure
+            self.labels_jumped_to.add(label_id)
             self.write_stmnt(f"jump @label_{label_id};")
 
     def source_map_add_opcode(self, op_offset: int) -> None:
